@@ -45,7 +45,7 @@ func c04Alphabet() []areq {
 	}
 	al = append(al, R(wire.Twalkgetattr, u(0), u(2), []string{"a"}), R(wire.Twalkgetattr, u(1), u(2), []string{}))
 	for _, f := range []uint64{1, 2} {
-		for _, fl := range []uint64{0, 1, 2} {
+		for _, fl := range []uint64{0, 1, 2, 0x8000, 0x201} { // access mode plus, sometimes, bits beyond it (O_LARGEFILE, O_TRUNC)
 			al = append(al, R(wire.Tlopen, f, fl))
 		}
 		al = append(al, R(wire.Tread, f, u(0), u(8)), R(wire.Twrite, f, u(0), []byte("xy")), R(wire.Twrite, f, u(2), []byte("zw")), R(wire.Treaddir, f, u(0), u(4096)), R(wire.Tfsync, f),
@@ -55,6 +55,7 @@ func c04Alphabet() []areq {
 	al = append(al, R(wire.Tclunk, u(0)), R(wire.Tclunk, u(7)), R(wire.Tstatfs, u(1)), R(wire.Tlock, u(2), u(1), u(0), u(0), u(8), u(3), "c"), R(wire.Tread, u(7), u(0), u(1)),
 		R(wire.Tread, u(2), u(0), u(0)), R(wire.Tread, u(2), u(0), u(4<<20+1)), R(wire.Tread, u(2), u(4), u(4)),
 		R(wire.Tlcreate, u(1), "new", u(2), u(0644), u(0)), R(wire.Tucreate, u(1), "new2", u(1), u(0644), u(0), u(0)), R(wire.Tlcreate, u(2), "x", u(2), u(0644), u(0)),
+		R(wire.Tlcreate, u(1), "new3", u(0x8000), u(0644), u(0)), R(wire.Tucreate, u(1), "new4", u(0x201), u(0644), u(0), u(0)),
 		R(wire.Tmkdir, u(1), "nd", u(0755), u(0)), R(wire.Tsymlink, u(1), "ns", "tgt", u(0)), R(wire.Tmknod, u(1), "nn", u(0010644), u(0), u(0), u(0)), R(wire.Tlink, u(1), u(2), "ln"),
 		R(wire.Txattrwalk, u(1), u(2), "user.x"), R(wire.Txattrwalk, u(2), u(1), ""), R(wire.Txattrwalk, u(2), u(1), "user.missing"), R(wire.Txattrcreate, u(2), "user.n", u(4), u(0)),
 		R(wire.Txattrcreate, u(1), "user.z", u(0), u(2)),
@@ -191,6 +192,16 @@ type seqGen struct {
 	nconn  int
 	rename int // weight of rename/unlink operations
 	maxfid uint64
+	queue  []c15step // a directed burst being played out (see macro)
+}
+
+// flags draws open flags: an access mode and, often, bits beyond it.
+func (g *seqGen) flags() uint64 {
+	fl := uint64(g.r.Intn(3))
+	if g.r.Chance(40) {
+		fl |= ev.Pick(g.r, []uint64{0x200, 0x400, 0x8000, 0x10000, 0x80000, 0x40, 0xFFFFFFFC})
+	}
+	return fl
 }
 
 func (g *seqGen) fid(conn int, bound bool) uint64 {
@@ -221,8 +232,79 @@ func (g *seqGen) childName(conn int, fid uint64) string {
 	return ev.Pick(g.r, []string{"a", "b", "g", "f", "n1", "n2", "n3", "x", "zz", "", "..", "a/b"})
 }
 
+// macro queues a short directed burst around one entry: bind a fid to it,
+// fence or move it (unlink, remove through another fid, rename over it, rename
+// it), then clone / use / clunk the fids in varying order. Purely random
+// choice almost never lines these steps up, and reference-count mistakes only
+// show when they are.
+func (g *seqGen) macro(conn int) {
+	r := g.r
+	// a bound, unfenced, unopened directory fid with at least one child
+	var cands []uint64
+	for id, f := range g.w.Conns[conn] {
+		if f.Typ == 'd' && !f.Fenced && !f.Opened && f.X == 0 {
+			if n := g.fs.Lookup("/" + join2(f.Path)); n != nil && len(n.Children) > 0 {
+				cands = append(cands, id)
+			}
+		}
+	}
+	if len(cands) == 0 {
+		return
+	}
+	sort.Slice(cands, func(i, j int) bool { return cands[i] < cands[j] })
+	d := cands[r.Intn(len(cands))]
+	n := g.childName(conn, d)
+	x, y := g.maxfid-1, g.maxfid
+	if x == d || y == d {
+		return
+	}
+	q := func(a areq) { g.queue = append(g.queue, c15step{conn, a}) }
+	q(R(wire.Twalk, d, x, []string{n}))
+	switch r.Intn(6) {
+	case 0:
+		q(R(wire.Tunlinkat, d, n, u(0)))
+	case 1:
+		q(R(wire.Trenameat, d, ev.Pick(r, []string{"a", "b", "g", "f", n}), d, n)) // something renamed over it
+	case 2:
+		q(R(wire.Trenameat, d, n, d, "moved"))
+	case 3:
+		q(R(wire.Twalk, d, y, []string{n}))
+		q(R(wire.Tremove, y))
+	case 4:
+		q(R(wire.Txattrwalk, x, y, ""))
+		q(R(wire.Tunlinkat, d, n, u(0)))
+		q(R(wire.Tclunk, y))
+	}
+	tail := []areq{R(wire.Twalk, x, y, []string{}), R(wire.Tclunk, y), R(wire.Tclunk, x), R(wire.Tgetattr, x, u(0x3fff)), R(wire.Twalk, x, x, []string{}), R(wire.Tremove, x), R(wire.Tgetattr, d, u(0x3fff))}
+	// the canonical order first half of the time, else shuffled and thinned
+	if r.Bool() {
+		for _, a := range tail[:3] {
+			q(a)
+		}
+	} else {
+		for _, i := range r.Perm(len(tail)) {
+			if r.Chance(60) {
+				q(tail[i])
+			}
+		}
+	}
+}
+
 func (g *seqGen) next() (conn int, a areq) {
 	r := g.r
+	if len(g.queue) > 0 {
+		s := g.queue[0]
+		g.queue = g.queue[1:]
+		return s.conn, s.a
+	}
+	if g.maxfid >= 4 && r.Chance(4) {
+		g.macro(r.Intn(g.nconn))
+		if len(g.queue) > 0 {
+			s := g.queue[0]
+			g.queue = g.queue[1:]
+			return s.conn, s.a
+		}
+	}
 	conn = r.Intn(g.nconn)
 	f := g.fid(conn, true)
 	nf := uint64(r.Intn(int(g.maxfid) + 1))
@@ -272,7 +354,7 @@ func (g *seqGen) next() (conn int, a areq) {
 		}
 		return conn, R(t, f, nf, names)
 	case k < 34:
-		return conn, R(wire.Tlopen, f, u(uint64(r.Intn(3))))
+		return conn, R(wire.Tlopen, f, g.flags())
 	case k < 40:
 		return conn, R(wire.Tclunk, f)
 	case k < 42:
@@ -297,9 +379,9 @@ func (g *seqGen) next() (conn int, a areq) {
 		return conn, R(wire.Tlock, f, u(1), u(0), u(0), u(4), u(1), "c")
 	case k < 78:
 		if r.Bool() {
-			return conn, R(wire.Tlcreate, f, fresh, u(uint64(r.Intn(3))), u(0644), u(0))
+			return conn, R(wire.Tlcreate, f, fresh, g.flags(), u(0644), u(0))
 		}
-		return conn, R(wire.Tucreate, f, fresh, u(uint64(r.Intn(3))), u(0644), u(0), u(0))
+		return conn, R(wire.Tucreate, f, fresh, g.flags(), u(0644), u(0), u(0))
 	case k < 81:
 		return conn, R(wire.Tmkdir, f, fresh, u(0755), u(0))
 	case k < 82:
